@@ -42,6 +42,7 @@ pub const SLATE_MUTATIONS: &[&str] = &[
 	"proof_saddr_rand",
 	"proof_sig_other",
 	"proof_resign_other",
+	"proof_resign_amount",
 	"kernel_features",
 	"com_drop",
 	"com_dup",
@@ -327,6 +328,68 @@ pub fn mutate_slate(ex: &Exec, m: usize, kind: &str, arg: u64) -> Option<Slate> 
 			let sig = kp.sign(&msg);
 			let p = s.payment_proof.as_mut()?;
 			p.receiver_address = pk;
+			p.receiver_signature = Some(sig);
+		}
+		"proof_resign_amount" => {
+			// a Byzantine recipient states another amount in its reply (honest replies
+			// carry 0 there) and signs, with its genuine proof key, over that amount, the
+			// final excess and the sender's address: two coordinated alterations
+			use byteorder::{BigEndian, WriteBytesExt};
+			use ed25519_dalek::Signer;
+			let parent = ex.msgs[m].parent?;
+			let s1 = ex.msgs[parent].slate.clone();
+			let p0 = s.payment_proof.clone()?;
+			let rw = ex.msgs[m].from?;
+			if s1.participant_data.is_empty() || s.participant_data.is_empty() || rw >= ex.world.wallets.len() || !ex.world.is_open(rw) {
+				return None;
+			}
+			let excess = {
+				let secp = static_secp_instance();
+				let secp = secp.lock();
+				let sum = PublicKey::from_combination(
+					&secp,
+					vec![
+						&s1.participant_data[0].public_blind_excess,
+						&s.participant_data[0].public_blind_excess,
+					],
+				)
+				.ok()?;
+				grin_util::secp::pedersen::Commitment::from_pubkey(&secp, &sum).ok()?
+			};
+			// the recipient's proof key: the slatepack key of the account that received
+			let owner = ex.world.owner(rw);
+			let mask = ex.world.mask(rw);
+			let snap = ex.world.snap(rw);
+			let mut kp = None;
+			for a in &snap.accts {
+				if owner.set_active_account(mask.as_ref(), &a.label).is_err() {
+					continue;
+				}
+				if let Ok(sk) = owner.get_slatepack_secret_key(mask.as_ref(), 0) {
+					let pk: ed25519_dalek::PublicKey = (&sk).into();
+					if pk == p0.receiver_address {
+						kp = Some(ed25519_dalek::Keypair { public: pk, secret: sk });
+						break;
+					}
+				}
+			}
+			let _ = owner.set_active_account(mask.as_ref(), &snap.active);
+			let kp = kp?;
+			let claimed = match arg % 3 {
+				0 => 1 + arg % 1_000_000_007,
+				1 => s1.amount.saturating_add(1 + arg % 1000),
+				_ => std::cmp::max(1, s1.amount / 2),
+			};
+			if claimed == s1.amount {
+				return None;
+			}
+			let mut msg = Vec::new();
+			msg.write_u64::<BigEndian>(claimed).ok()?;
+			msg.extend_from_slice(&excess.0);
+			msg.extend_from_slice(&p0.sender_address.to_bytes());
+			let sig = kp.sign(&msg);
+			s.amount = claimed;
+			let p = s.payment_proof.as_mut()?;
 			p.receiver_signature = Some(sig);
 		}
 		"kernel_features" => {
